@@ -63,6 +63,14 @@ class Prior(Variable, ABC, ArithmeticMixin):
         return cls(*children, id_=aux_data[0])
 
     @property
+    def id_(self) -> int:
+        """
+        The id of this prior as stored in the database. This must be the id of the
+        prior itself: the message is shared by copies made with new()
+        """
+        return self.id
+
+    @property
     def lower_unit_limit(self) -> float:
         """
         The lower limit for this prior in unit vector space
